@@ -217,7 +217,8 @@ theorem step2_DLW (b : Nat) (w : World) (which : Nat) (bytes : Bytes) (k : K b (
     Out2 b (.DLW w which bytes) := by
   cases he : bytes.isEmpty with
   | true =>
-    exact .call (.DLF w which) (k.same rfl trivial) (Lines.refl _)
+    exact .call (.DLF (w.discDone which) which)
+      (k.same (discDone_wakes w which) trivial) ((Lines.refl w).of_eq (discDone_out w which))
       (fun m => by simp only [Call.run, doLocalWrite, he, if_true])
   | false =>
     cases hio : w.ioWrite bytes with
